@@ -10,7 +10,10 @@ import (
 	"time"
 	"unsafe"
 
+	"net/netip"
+
 	"github.com/mdlayher/corerad/internal/plugin"
+	"github.com/mdlayher/corerad/internal/system"
 	"github.com/mdlayher/corerad/internal/vfh"
 	"github.com/mdlayher/ndp"
 )
@@ -66,7 +69,15 @@ func verifC16Mono(t *testing.T, r *vfh.Rand, out *vfh.Out) {
 		V := time.Duration(r.Range(60, 4*3600)) * time.Second
 		P := time.Duration(r.Range(1, int64(V/time.Second))) * time.Second
 		L := time.Duration(r.Range(60, 4*3600)) * time.Second
-		doc := fmt.Sprintf("[[interfaces]]\nname = \"eth0\"\nadvertise = true\n"+
+		// in every other run a non-deprecated wildcard stanza is listed BEFORE the deprecated one and
+		// expands onto the very same prefix / route (renumbering: the old /64 is still on the
+		// interface): the deprecated stanza's option is in the RA all the same, and counts down
+		wild := k%2 == 1
+		pre := ""
+		if wild {
+			pre = "[[interfaces.prefix]]\nprefix = \"::/64\"\n[[interfaces.route]]\nprefix = \"::/0\"\n"
+		}
+		doc := fmt.Sprintf("[[interfaces]]\nname = \"eth0\"\nadvertise = true\n"+pre+
 			"[[interfaces.prefix]]\nprefix = \"2001:db8::/64\"\ndeprecated = true\nvalid_lifetime = \"%ds\"\npreferred_lifetime = \"%ds\"\n"+
 			"[[interfaces.route]]\nprefix = \"2001:db8:1::/48\"\ndeprecated = true\nlifetime = \"%ds\"\n",
 			int64(V/time.Second), int64(P/time.Second), int64(L/time.Second))
@@ -80,8 +91,20 @@ func verifC16Mono(t *testing.T, r *vfh.Rand, out *vfh.Out) {
 		for _, pl := range cfg.Interfaces[0].Plugins {
 			switch x := pl.(type) {
 			case *plugin.Prefix:
+				if x.Auto {
+					x.Addrs = func() ([]system.IP, error) {
+						return []system.IP{{Address: netip.MustParsePrefix("2001:db8::1/64")}}, nil
+					}
+					continue
+				}
 				pp = x
 			case *plugin.Route:
+				if x.Auto {
+					x.Routes = func() ([]system.Route, error) {
+						return []system.Route{{Prefix: netip.MustParsePrefix("2001:db8:1::/48"), Index: 1}}, nil
+					}
+					continue
+				}
 				rp = x
 			}
 		}
@@ -124,18 +147,34 @@ func verifC16Mono(t *testing.T, r *vfh.Rand, out *vfh.Out) {
 			rp.TimeNow = func() time.Time { return now }
 			cp.I(e + int64(d))
 			cr.I(e + int64(d))
-			ra := &ndp.RouterAdvertisement{}
-			if err := pp.Apply(ra); err != nil || len(ra.Options) != 1 {
+			// the RA as the advertiser, the scrape and the debug API build it: the options the
+			// deprecated stanzas contribute are the LAST ones for their prefix / route
+			ra, _, err := cfg.Interfaces[0].RouterAdvertisement(true)
+			var pi *ndp.PrefixInformation
+			var ri *ndp.RouteInformation
+			if err == nil {
+				for _, o := range ra.Options {
+					switch x := o.(type) {
+					case *ndp.PrefixInformation:
+						if x.Prefix == netip.MustParseAddr("2001:db8::") && x.PrefixLength == 64 {
+							pi = x
+						}
+					case *ndp.RouteInformation:
+						if x.Prefix == netip.MustParseAddr("2001:db8:1::") && x.PrefixLength == 48 {
+							ri = x
+						}
+					}
+				}
+			}
+			if pi == nil {
 				ip.S("apply-failed")
 			} else {
-				pi := ra.Options[0].(*ndp.PrefixInformation)
 				ip.I(int64(pi.ValidLifetime)).I(int64(pi.PreferredLifetime)).N(1)
 			}
-			ra = &ndp.RouterAdvertisement{}
-			if err := rp.Apply(ra); err != nil || len(ra.Options) != 1 {
+			if ri == nil {
 				ir.S("apply-failed")
 			} else {
-				ir.I(int64(ra.Options[0].(*ndp.RouteInformation).RouteLifetime)).N(1)
+				ir.I(int64(ri.RouteLifetime)).N(1)
 			}
 		}
 		if !ok {
